@@ -497,14 +497,28 @@ pub fn run(ctx: &mut Ctx) -> Report {
 				}
 				// the value of a type replaced after the name has been written once: what is written
 				// next is the new value under its own tag
+				// (written through a method that borrows the parameters, so that it is this very name
+				// object that has been written before; and through the parameters a certificate hands back)
+				let req_subject = |q: &CertificateParams| q.serialize_request(key).ok().and_then(|r| { let (o, _) = crate::der::read_tlv(r.der())?; let info = crate::der::children(o.content)?; Some(crate::der::children(info.first()?.content)?.get(1)?.whole.to_vec()) });
+				let mut pr = p.clone();
+				pr.is_ca = IsCa::NoCa; // (a request cannot ask for the CA flag)
+				let p = pr;
 				let mut q = p.clone();
 				q.distinguished_name.push(DnType::OrganizationName, DnValue::Utf8String("first".into()));
-				let _ = q.clone().self_signed(key);
+				if req_subject(&q).is_none() {
+					rep.count("request_not_written");
+				}
 				q.distinguished_name.push(DnType::OrganizationName, v.clone());
-				let again = q.clone().self_signed(key).ok().and_then(|c| crate::der::split_signed(c.der()).map(|x| x.0));
-				let fresh = crate::der::split_signed(cert.der()).map(|x| x.0);
-				let subject = |tbs: &Option<Vec<u8>>| tbs.as_ref().and_then(|t| { let (o, _) = crate::der::read_tlv(t)?; Some(crate::der::children(o.content)?[5].whole.to_vec()) });
-				if subject(&again) != subject(&fresh) {
+				let again = req_subject(&q);
+				let mut q2 = { let mut f = p.clone(); f.distinguished_name.push(DnType::OrganizationName, DnValue::Utf8String("first".into())); f.self_signed(key).ok().map(|c| c.params().clone()) };
+				if let Some(q2) = q2.as_mut() {
+					q2.distinguished_name.push(DnType::OrganizationName, v.clone());
+				}
+				let again2 = q2.as_ref().and_then(|q| req_subject(q));
+				let fresh = req_subject(&p);
+				let subject = |x: &Option<Vec<u8>>| x.clone();
+				if again != fresh || (q2.is_some() && again2 != fresh) {
+					let again = if again != fresh { again } else { again2 };
 					rep.violate(&format!("C13:value-replaced-after-writing:{}", kind), "a value pushed in place of another after the name was written once is not what the next certificate carries", format!("kind={} text={:?}\nsubject written: {:?}\nsubject of a name built with the value directly: {:?}", kind, t, subject(&again).map(|b| hex(&b)), subject(&fresh).map(|b| hex(&b))));
 				}
 			}
